@@ -123,7 +123,7 @@ func verifEF(applyTo networking.EnvoyFilter_ApplyTo) *networking.EnvoyFilter {
 }
 
 func verifTelemetry(disabled bool) *telemetry.Telemetry {
-	return &telemetry.Telemetry{AccessLogging: []*telemetry.AccessLogging{{Disabled: wrapperspb.Bool(disabled)}}}
+	return &telemetry.Telemetry{AccessLogging: []*telemetry.AccessLogging{{Providers: []*telemetry.ProviderRef{{Name: "otel"}}, Disabled: wrapperspb.Bool(disabled)}}}
 }
 
 func verifRA(issuer string) *securityBeta.RequestAuthentication {
@@ -165,7 +165,10 @@ func verifSnapWorldNew(paMode int32) *verifSnapWorld {
 	add(gvk.Telemetry, "tm", "ns1", verifTelemetry(false))
 	add(gvk.RequestAuthentication, "ra", "ns1", verifRA("i1"))
 	add(gvk.ProxyConfig, "pc", "ns1", verifPC(1))
-	w.env = &Environment{ServiceDiscovery: w.sd, ConfigStore: w.store, Watcher: VerifWatcher{M: &meshconfig.MeshConfig{RootNamespace: "istio-system"}},
+	w.env = &Environment{ServiceDiscovery: w.sd, ConfigStore: w.store, Watcher: VerifWatcher{M: &meshconfig.MeshConfig{RootNamespace: "istio-system",
+		// an access-log provider whose backend is service b, written in the <namespace>/<hostname> form
+		ExtensionProviders: []*meshconfig.MeshConfig_ExtensionProvider{{Name: "otel", Provider: &meshconfig.MeshConfig_ExtensionProvider_EnvoyOtelAls{
+			EnvoyOtelAls: &meshconfig.MeshConfig_ExtensionProvider_EnvoyOpenTelemetryLogProvider{Service: "ns2/b.ns2.svc.cluster.local", Port: 80}}}}}},
 		EndpointIndex: NewEndpointIndex(DisabledCache{}), AmbientIndexes: &NoopAmbientIndexes{}}
 	w.env.VirtualServiceController = &VirtualServiceController{outputs: Outputs{MergedVirtualServices: verifVSCollection{store: w.store}}}
 	w.env.Init()
@@ -395,6 +398,10 @@ func verifObserveSnapshot(ps *PushContext) *verifSnapObs {
 	// telemetry and proxy config
 	al := ps.Telemetry.AccessLogging(ps, sidecar, pilotnetworking.ListenerClassSidecarOutbound, nil)
 	o.add("telemetry.accesslog", int64(len(al)))
+	for _, l := range al {
+		o.str("telemetry.accesslog.provider", l.Provider.Name)
+		o.add("telemetry.accesslog.disabled", vp.IteInt64(l.Disabled, 1, 0))
+	}
 	// (EffectiveProxyConfig merges through YAML; the namespace-level source of the merge is read instead)
 	if pc := ps.ProxyConfigs.mergedNamespaceConfig("ns1"); pc != nil && pc.Concurrency != nil {
 		o.add("proxyconfig.concurrency", int64(pc.Concurrency.Value))
